@@ -21,6 +21,7 @@ META = dict(
          "cumprod/cumsum/insert/minimum, and the published formulas quoted from the property text.",
     technique="AST-to-algebra translation + computer-algebra identity (no solver, no execution)",
 )
+META["text"] += ' (R6, N) no np.full_like / np.empty_like of a data-shaped array without dtype: the published formulas are over the reals, an integer-vote sample must not truncate 0.5 to 0.'
 
 
 def run(chk):
